@@ -119,3 +119,21 @@ def boundary_cases(rng, versions=VERSIONS, modes=(1, 2, 4, 8, 13), deltas=(0, 1)
 
 def strip(case):
     return {k: v for k, v in case.items() if not k.startswith('_')}
+
+
+def multipart_eci_cases(rng, thorough=False):
+    """Several byte parts in the same / in different non-default encodings, separated by parts of other modes (so that they
+    are not merged), with eci=True, swept through the capacity boundaries of the small versions: every byte segment in a
+    non-default encoding carries its own 12-bit ECI header, which the size estimate has to count per segment."""
+    out = []
+    texts = [('\u00e4', '\u20ac'), ('\u00e9\u00e8', '\u00fc'), ('\u20ac\u20ac', '\u00f6\u00e4\u00fc')]
+    for (a, z) in texts[:3 if thorough else 2]:
+        for enc_a, enc_z in (('utf-8', 'utf-8'), ('utf-8', 'utf-16-be'), ('shift_jis' if False else 'utf-8', None)):
+            for sep_mode in ('digits', 'alnum'):
+                for level in ('L', 'M') + (('Q', 'H') if thorough else ()):
+                    for n in range(1, 75 if thorough else 48):
+                        sep = ''.join(rng.choice('0123456789') for _ in range(n)) if sep_mode == 'digits' else \
+                            ''.join(rng.choice('ABCDEFGHIJKLMNOPQRSTUVWXYZ $%*+-./:') for _ in range(n))
+                        parts = [(a, None, enc_a), sep, (z, None, enc_z) if enc_z else z]
+                        out.append({'content': parts, 'eci': True, 'error': level, 'micro': False, 'mask': 0, 'boost_error': False})
+    return out
